@@ -479,19 +479,50 @@ func (m *Machine) model(fn *ssa.Function, args []Value, res ssa.Value) *modelRes
 		m.W.Arenas = append(m.W.Arenas, ar)
 		return &modelRes{}
 	case "(*sync.Pool).Put":
+		// with pool reuse modelled (job parameter pool=1) the slot is marked as pooled
+		if m.procMode && m.W.Params["pool"] == 1 {
+			if iv, ok := args[1].(*IfaceV); ok {
+				if p, ok := iv.V.(*PtrV); ok && p.Arena != nil && p.Arena.Pooled != nil {
+					for i := range p.Arena.Slots {
+						cur := p.Arena.Pooled[i]
+						if u, ok := m.pathUpd[cur]; ok {
+							cur = u
+						}
+						m.pathUpd[p.Arena.Pooled[i]] = f.Ite(f.Eq(p.Idx, f.IntC(int64(i))), f.True(), cur)
+					}
+				}
+			}
+		}
 		return &modelRes{}
 	case "(*sync.Pool).Get":
-		// modelled as "always fresh": the pool's New function is called (reuse of a
-		// recycled node is outside the claim)
+		// default: "always fresh" (the pool's New function is called). With job
+		// parameter pool=1: Get returns EITHER a fresh object OR ANY object that was
+		// Put before (the solver's choice), stale contents included.
 		pp := args[0].(*PtrV)
 		pool := m.load(pp).(*StructV)
-		st := under(pp.Obj.T)
-		_ = st
 		var newFn *FuncV
 		pt := under(getTypeAt(pp.Obj.T, pp.Path)).(*types.Struct)
 		for i := 0; i < pt.NumFields(); i++ {
 			if pt.Field(i).Name() == "New" {
 				newFn, _ = pool.F[i].(*FuncV)
+			}
+		}
+		if m.procMode && m.W.Params["pool"] == 1 {
+			for _, ar := range m.W.Arenas {
+				if ar.Pooled == nil {
+					continue
+				}
+				k := m.choice(1+len(ar.Slots), "pool.get")
+				if k == 0 {
+					break
+				}
+				cur := ar.Pooled[k-1]
+				if u, ok := m.pathUpd[cur]; ok {
+					cur = u
+				}
+				m.assume(cur) // only a slot that is in the pool
+				m.pathUpd[ar.Pooled[k-1]] = f.False()
+				return &modelRes{v: &IfaceV{Dyn: types.NewPointer(ar.T), V: &PtrV{Arena: ar, Idx: f.IntC(int64(k - 1))}}}
 			}
 		}
 		if newFn == nil {
